@@ -35,6 +35,7 @@ type GroupReport struct {
 }
 
 type Gen struct {
+	OutDir string
 	Repo   string
 	Fset   *token.FileSet
 	files  map[string]*ast.File
@@ -207,7 +208,7 @@ func Main(args []string, group, module string, fn func(g *Gen)) {
 	out := fs.String("out", "/verif/lean/GIV/Gen", "output directory")
 	fs.Parse(args)
 	rep := &Report{Groups: map[string]*GroupReport{}}
-	g := &Gen{Repo: *repo, Fset: token.NewFileSet(), files: map[string]*ast.File{}}
+	g := &Gen{Repo: *repo, OutDir: *out, Fset: token.NewFileSet(), files: map[string]*ast.File{}}
 	g.Report = &GroupReport{Anchors: map[string]string{}}
 	g.Emit("/- GENERATED by factgen from /repo's working tree — do not edit; regenerated on every check run. -/\nimport GIV.Basic\nnamespace GIV.Gen.%s\n", module)
 	fn(g)
@@ -226,4 +227,17 @@ func Main(args []string, group, module string, fn func(g *Gen)) {
 	data, _ := json.MarshalIndent(rep, "", " ")
 	os.Stdout.Write(data)
 	fmt.Println()
+}
+
+// WriteModule writes GIV/Gen/<module>.lean next to the main module (only when its content changed).
+func (g *Gen) WriteModule(module, text string) {
+	path := filepath.Join(g.OutDir, module+".lean")
+	old, _ := os.ReadFile(path)
+	if string(old) != text {
+		g.Report.Changed = true
+		if err := os.WriteFile(path, []byte(text), 0o666); err != nil {
+			fmt.Fprintln(os.Stderr, err)
+			os.Exit(2)
+		}
+	}
 }
